@@ -127,10 +127,11 @@ def check_match(case, ctx):
         arg1, arg2 = re1(), re2()
     if mode == "list":
         arg1, arg2 = a1.tolist(), a2.tolist()
+    # a scalar as callers have it: a numpy scalar, or (every third case) the 0-d array a reduction or an index hands back
     if mode == "scalar1":
-        arg1 = a1[0]
+        arg1 = np.array(a1[0]) if len(case["a2"]) % 3 == 0 else a1[0]
     if mode == "scalar2":
-        arg2 = a2[0]
+        arg2 = np.array(a2[0]) if len(case["a1"]) % 3 == 0 else a2[0]
     # the presorted flag as callers spell it: a bool, an int, or the numpy bool a comparison produces
     fl = {"bool": bool, "int": int, "npbool": np.bool_}[case.get("flagas", "bool")]
     if mode == "presorted":
